@@ -549,7 +549,10 @@ func (s *scanningState) scan(line []byte) (bool, error) {
 				}
 				s.Goroutines = append(s.Goroutines, g)
 				s.state = gotRoutineHeader
-				s.prefix = append([]byte{}, match[1]...)
+				if len(s.Goroutines) == 1 {
+					// Later headers already had the indentation stripped.
+					s.prefix = append([]byte{}, match[1]...)
+				}
 				return true, nil
 			}
 		}
